@@ -58,11 +58,16 @@ SCOPE = {
 _DT = {'int8': torch.int8, 'float32': torch.float32, 'int64': torch.int64}
 
 
+_IDX_ALL = {}
+
+
 def _idx_all(A, L):
     """(A**L, L) int64: every sequence of length L over A characters, lexicographic"""
-    r = torch.arange(A ** L, dtype=torch.int64)
-    cols = [(r // (A ** (L - 1 - p))) % A for p in range(L)]
-    return torch.stack(cols, dim=1)
+    if (A, L) not in _IDX_ALL:
+        r = torch.arange(A ** L, dtype=torch.int64)
+        cols = [(r // (A ** (L - 1 - p))) % A for p in range(L)]
+        _IDX_ALL[(A, L)] = torch.stack(cols, dim=1)
+    return _IDX_ALL[(A, L)]
 
 
 def _idx_of(seqs):
@@ -93,7 +98,7 @@ def _disturb(k):
     """disturb every global generator a hidden dependency could read"""
     numpy.random.seed((k * 7919 + 13) % (2 ** 31))
     numpy.random.rand(3)
-    torch.manual_seed(k + 1)
+    torch.default_generator.manual_seed(k + 1)      # (torch.manual_seed also queues a traced CUDA call: 1.5 ms)
     # numba's own generator state (separate from numpy's): advanced by a foreign shuffle
     x = torch.zeros((1, 2, 6), dtype=torch.int8)
     x[0, 0, ::2] = 1
@@ -167,6 +172,39 @@ def oracle(fn, idx, X, Y, A, s, e, n, default_end):
             fb = _first_bad(py == px)
             if fb is not None:
                 out.append('ordered-pair (dinucleotide) counts inside the region [%d,%d) differ: %s' % (s, e, _describe(idx, Y, fb[0], fb[1], A)))
+    return out
+
+
+def oracle_py(fn, seq, rows, A, s, e, n, default_end):
+    """the same oracle for ONE input sequence in plain python (used per enumerated walk outcome,
+    where tensor-op overhead would dominate).  rows: Y[b].tolist(), nested n x A x L"""
+    out = []
+    L = len(seq)
+    if len(rows) != n or any(len(r) != A or any(len(c) != L for c in r) for r in rows):
+        return ['result has the wrong shape, expected (n=%d, A=%d, L=%d)' % (n, A, L)]
+    for j, r in enumerate(rows):
+        chars = []
+        for p in range(L):
+            col = [r[c][p] for c in range(A)]
+            if sorted(col) != [0] * (A - 1) + [1]:
+                return ['output is not a valid one-hot encoding: input %s -> output %d column %d = %s' % (seq, j, p, col)]
+            chars.append(LETTERS[col.index(1)])
+        o = ''.join(chars)
+        d = 'input %s -> output %d = %s' % (seq, j, o)
+        if o[:s] != seq[:s]:
+            out.append('a position before the region [%d,%d) differs from the input: %s' % (s, e, d))
+        if o[e:] != seq[e:]:
+            out.append('a position after the region [%d,%d) differs from the input: %s' % (s, e, d))
+        if sorted(o[s:e]) != sorted(seq[s:e]):
+            out.append('character counts inside the region [%d,%d) differ: %s' % (s, e, d))
+        if fn == 'dinuc':
+            last = L - 1 if default_end else e - 1
+            if o[s] != seq[s] or o[last] != seq[last]:
+                out.append('first/last character of the region [%d,%d) changed: %s' % (s, e, d))
+            if sorted(zip(o[s:e - 1], o[s + 1:e])) != sorted(zip(seq[s:e - 1], seq[s + 1:e])):
+                out.append('ordered-pair (dinucleotide) counts inside the region [%d,%d) differ: %s' % (s, e, d))
+        if out:
+            break
     return out
 
 
@@ -262,6 +300,19 @@ def _finding(what):
     return 'other'
 
 
+MAX_PER_FINDING = 25
+
+
+def _report(rep, stats, what, case, finding):
+    """at most MAX_PER_FINDING stored violations per finding key (the rest is only counted)"""
+    k = 'violations[%s]' % finding
+    stats[k] = stats.get(k, 0) + 1
+    if stats[k] <= MAX_PER_FINDING:
+        rep.violation(what, case, finding=finding)
+    elif stats[k] == MAX_PER_FINDING + 1:
+        rep.note('more than %d violations of class %s; further ones are only counted in the statistics' % (MAX_PER_FINDING, finding))
+
+
 def _do_call(rep, case, key, section, stats, sample=None):
     info = {}
     viol = check_call(case, info)
@@ -276,7 +327,7 @@ def _do_call(rep, case, key, section, stats, sample=None):
     if viol:
         c2, v2 = _minimise(case, viol)
         for w in v2:
-            rep.violation('%s: %s' % (c2['fn'], w), c2, finding=_finding(w))
+            _report(rep, stats, '%s: %s' % (c2['fn'], w), c2, _finding(w))
     return returned
 
 
@@ -387,81 +438,156 @@ def _py_walk():
     return _WALK[key]
 
 
-def check_walk(case, info=None):
-    """case: {kind:'walk', A, seq, n, trail}. Runs the public dinucleotide_shuffle on the whole
-    sequence with the walk driven by the stored trail of permutation choices."""
-    A, seq, n = case['A'], case['seq'], case['n']
+def _consumption(seq, A, n, args):
+    """walk-level clause: every transition of the original sequence used exactly once"""
+    if len(args) != 8:
+        return []
+    counters = numpy.asarray(args[5])
+    if counters.shape != (n, A):
+        return []
+    outdeg = [seq[:-1].count(LETTERS[c]) for c in range(A)]
+    for i in range(n):
+        used = [int(v) for v in counters[i]]
+        if used != outdeg:
+            return ['walk %d did not consume every transition exactly once (stranded): transitions used per character %s, '
+                    'available %s, input %s' % (i, used, outdeg, seq)]
+    return []
+
+
+def _walk_level(seq, A, n, args):
+    """fast filter on the raw arrays of one enumerated walk (never reported directly)"""
+    out = _consumption(seq, A, n, args)
+    if len(args) == 8 and isinstance(args[6], numpy.ndarray) and args[6].ndim == 3:
+        out += oracle_py('dinuc', seq, args[6].tolist(), A, 0, len(seq), n, False)
+    return out
+
+
+def _session(A, seq, n, trail, enumerate_all):
+    """ONE call of the public dinucleotide_shuffle on the whole sequence with ersatz._fast_shuffle
+    replaced by its python body under the enumerating source.  The arrays handed back to the
+    caller are those of the outcome `trail`; with enumerate_all every other outcome is first run
+    on copies of the (real) successor tables and filtered by _walk_level."""
     idx = _idx_of([seq])
     L = idx.shape[1]
     X = _ohe(idx, A, torch.int8)
     X0 = X.clone()
     walk = _py_walk()
-    rec = {}
+    ses = {'outcomes': 0, 'suspects': [], 'trails': [], 'walked': False, 'unsupported': None}
 
     def wrapper(*args, **kw):
+        ses['walked'] = True
+        if enumerate_all:
+            t = []
+            while t is not None:
+                a2 = [x.copy() if isinstance(x, numpy.ndarray) else x for x in args]
+                _SRC.reset(t)
+                err = None
+                try:
+                    walk(*a2, **kw)
+                except NotImplementedError:
+                    raise
+                except Exception as ex:      # e.g. IndexError: the compiled code would read out of bounds
+                    err = ex
+                tr = _SRC.trail[:_SRC.pos]
+                ses['outcomes'] += 1
+                ses['trails'].append(tr)
+                if err is not None or _walk_level(seq, A, n, a2):
+                    ses['suspects'].append(tr)
+                t = _SRC.advance()
+        _SRC.reset(trail)
         r = walk(*args, **kw)
-        rec['args'] = args
+        ses['args'] = args
         return r
 
-    _SRC.reset(case.get('trail', []))
     real = ersatz._fast_shuffle
     ersatz._fast_shuffle = wrapper
-    out = []
     try:
         try:
-            Y = ersatz.dinucleotide_shuffle(X, 0, L, n=n, random_state=0)
-            returned = True
+            ses['Y'] = ersatz.dinucleotide_shuffle(X, 0, L, n=n, random_state=0)
+            ses['returned'] = True
         except Exception as ex:
-            returned = False
-            if info is not None:
-                info['raised'] = type(ex).__name__
+            ses['returned'] = False
+            ses['raised'] = type(ex).__name__
     finally:
         ersatz._fast_shuffle = real
+    ses['unsupported'] = _SRC.unsupported
+    ses['trail'] = _SRC.trail[:_SRC.pos] if ses['walked'] else list(trail)
+    ses['unmodified'] = torch.equal(X, X0)
+    return ses
+
+
+def check_walk(case, info=None):
+    """case: {kind:'walk', A, seq, n, trail}: the public dinucleotide_shuffle on the whole sequence with
+    the walk driven by the stored trail of permutation choices (index of each requested permutation
+    in lexicographic order)."""
+    A, seq, n = case['A'], case['seq'], case['n']
+    ses = _session(A, seq, n, case.get('trail', []), False)
+    return _judge(ses, A, seq, n, info)
+
+
+def _judge(ses, A, seq, n, info=None):
+    L = len(seq)
     if info is not None:
-        info['returned'] = returned
-        info['walked'] = 'args' in rec
-        info['unsupported'] = _SRC.unsupported
-        info['trail'] = _SRC.trail[:_SRC.pos]
-    if not returned:
-        return out
-    tag = 'under permutation outcomes %s: ' % (_SRC.trail[:_SRC.pos],)
-    out += [tag + w for w in oracle('dinuc', idx, X0, Y, A, 0, L, n, False)]
-    if not torch.equal(X, X0):
+        info.update({k: ses.get(k) for k in ('returned', 'raised', 'walked', 'unsupported', 'trail', 'outcomes', 'suspects')})
+    if not ses['returned']:
+        return []       # the statement conditions on "returns at all"
+    Y = ses['Y']
+    tag = 'under permutation outcomes %s: ' % (ses['trail'],)
+    if not isinstance(Y, torch.Tensor) or Y.dim() != 4 or Y.shape[0] != 1:
+        return [tag + 'result has shape %s, expected (1, %d, %d, %d)' % (tuple(getattr(Y, 'shape', ())), n, A, L)]
+    out = [tag + w for w in oracle_py('dinuc', seq, Y[0].tolist(), A, 0, L, n, False)]
+    if not ses['unmodified']:
         out.append(tag + 'the input tensor was modified')
-    a = rec.get('args')
-    if a is not None and len(a) == 8:
-        counters = numpy.asarray(a[5])
-        if counters.shape == (n, A):
-            outdeg = [seq[:-1].count(LETTERS[c]) for c in range(A)]
-            for i in range(n):
-                if [int(v) for v in counters[i]] != outdeg:
-                    out.append(tag + 'walk %d did not consume every transition exactly once (stranded): transitions used per character %s, '
-                               'available %s, input %s' % (i, [int(v) for v in counters[i]], outdeg, seq))
-                    break
+    if 'args' in ses:
+        out += [tag + w for w in _consumption(seq, A, n, ses['args'])]
     return out
 
 
-def _enumerate_walks(rep, A, seq, n, stats):
-    """every outcome of every internal permutation for one sequence"""
-    trail = []
-    first = True
-    while trail is not None:
-        case = {'kind': 'walk', 'A': A, 'seq': seq, 'n': n, 'trail': trail}
-        info = {}
-        viol = check_walk(case, info)
-        case['trail'] = info['trail']
-        rep.case(('walk', A, seq, n, tuple(info['trail'])), nontrivial=info['returned'] and len(seq) >= 3,
-                 sample=case if first and len(seq) >= 5 else None, section='walk-enumerated(n=%d)' % n)
-        first = False
-        stats['walk outcomes'] = stats.get('walk outcomes', 0) + 1
-        if not info['walked']:
-            stats['walk not reached'] = stats.get('walk not reached', 0) + 1
-        if info.get('unsupported') and 'unsupported' not in stats:
-            stats['unsupported'] = info['unsupported']
-            rep.note('HARNESS LIMIT: the walk uses numpy.random.%s, which the enumerating source does not model; those outcomes are not covered' % info['unsupported'])
-        for w in viol:
-            rep.violation('dinuc walk: ' + w, dict(case), finding=_finding(w))
-        trail = _SRC.advance()
+def _enumerate_walks(rep, A, seq, n, stats, precise=False):
+    """every outcome of every internal permutation for one sequence.
+    precise: one public call per outcome.  Otherwise one public call per sequence: all outcomes are
+    run on the real successor tables inside it and filtered at walk level; every suspect outcome is
+    then re-run as its own public call and reported only if that call returns and violates."""
+    section = 'walk-enumerated(n=%d)' % n
+    if precise:
+        trail = []
+        while trail is not None:
+            case = {'kind': 'walk', 'A': A, 'seq': seq, 'n': n, 'trail': trail}
+            info = {}
+            viol = check_walk(case, info)
+            case['trail'] = info['trail']
+            rep.case(('walk', A, seq, n, tuple(info['trail'])), nontrivial=bool(info['returned']) and len(seq) >= 3, section=section + '/one-call-per-outcome')
+            stats['walk outcomes'] = stats.get('walk outcomes', 0) + 1
+            for w in viol:
+                _report(rep, stats, 'dinuc walk: ' + w, dict(case), _finding(w))
+            if not info['walked']:
+                break
+            trail = _SRC.advance()
+        return
+    ses = _session(A, seq, n, [], True)
+    info = {}
+    case = {'kind': 'walk', 'A': A, 'seq': seq, 'n': n, 'trail': ses['trail']}
+    for w in _judge(ses, A, seq, n, info):
+        _report(rep, stats, 'dinuc walk: ' + w, dict(case), _finding(w))
+    k = max(ses['outcomes'], 1)
+    stats['walk outcomes'] = stats.get('walk outcomes', 0) + k
+    stats['walk sequences'] = stats.get('walk sequences', 0) + 1
+    for i, tr in enumerate(ses['trails'] or [ses['trail']]):
+        rep.case(('walk', A, seq, n, tuple(tr)), nontrivial=bool(ses['returned']) and len(seq) >= 3,
+                 sample=dict(case, outcomes=k) if i == 0 and k >= 4 and not stats.get('sampled%d' % n) else None, section=section)
+    if k >= 4:
+        stats['sampled%d' % n] = 1
+    if not ses['walked']:
+        stats['walk not reached'] = stats.get('walk not reached', 0) + 1
+    if ses.get('unsupported') and 'unsupported' not in stats:
+        stats['unsupported'] = ses['unsupported']
+        rep.note('HARNESS LIMIT: the walk uses numpy.random.%s, which the enumerating source does not model; its outcomes are not covered' % ses['unsupported'])
+    if ses['suspects']:
+        stats['walk suspects'] = stats.get('walk suspects', 0) + len(ses['suspects'])
+    for tr in ses['suspects'][:3 if stats.get('walk suspects', 0) > 300 else 20]:
+        c2 = {'kind': 'walk', 'A': A, 'seq': seq, 'n': n, 'trail': tr}
+        for w in check_walk(c2):
+            _report(rep, stats, 'dinuc walk: ' + w, c2, _finding(w))
 
 
 def _all_seqs(A, L):
@@ -496,76 +622,106 @@ def _rand_seq(rng, A, L):
     return ''.join(s)
 
 
+def _batch_case(fn, A, L, s, end, n, seed, det, cap=None):
+    case = {'kind': 'call', 'fn': fn, 'A': A, 'all_len': L, 'start': s, 'end': end, 'n': n, 'seed': seed, 'dtype': 'int8', 'det': det}
+    if cap is not None and A ** L > cap:
+        case['stride'] = -(-(A ** L) // cap)
+        case['offset'] = (seed + s) % case['stride']
+    return case
+
+
 def run(rep):
     thorough = rep.tier == 'thorough'
     rng = rep.rng
     stats = {}
     base_seed = rng.randrange(0, 10 ** 6)
+    total = rep.budget_s
 
-    # ---- (b) enumerated walk (first: it is the part the statement singles out) -------------
+    marks = []
+
+    def mark(name):
+        marks.append('%s %.1fs' % (name, total - rep.left()))
+
+    def over(frac):
+        """section guard: true when more than `frac` of the budget is spent"""
+        return rep.left() < total * (1 - frac)
+
+    # ---- (b) enumerated walk (first: the part the statement singles out) -------------------
     full = {2: 8, 3: 8, 4: 8} if thorough else {2: 8, 3: 7, 4: 6}
     full2 = 6 if thorough else 5
+    precise_L = 5 if thorough else 4
     done = True
     for A in (2, 3, 4):
         for L in range(1, full[A] + 1):
             for seq in _all_seqs(A, L):
-                if rep.out_of_time():
+                if over(0.45):
                     done = False
                     break
                 _enumerate_walks(rep, A, seq, 1, stats)
                 if L <= full2:
                     _enumerate_walks(rep, A, seq, 2, stats)
+                if L <= precise_L:
+                    _enumerate_walks(rep, A, seq, 1, stats, precise=True)
+                    _enumerate_walks(rep, A, seq, 2, stats, precise=True)
     if done:
-        rep.mark_exhaustive('dinucleotide walk: every permutation outcome, every sequence of length <= %s (alphabet 2/3/4), n=1; length <= %d, n=2'
+        rep.mark_exhaustive('dinucleotide walk: every permutation outcome of every sequence of length <= %s (alphabet 2/3/4), n=1; length <= %d, n=2'
                             % ('/'.join(str(full[a]) for a in (2, 3, 4)), full2))
     else:
         rep.note('time budget reached inside the enumerated walk')
     if not thorough:
-        for k in range(150):
-            if rep.out_of_time():
+        for k in range(120):
+            if over(0.5):
                 break
             A, L = rng.choice([(3, 8), (4, 7), (4, 8), (4, 8)])
             _enumerate_walks(rep, A, _rand_seq(rng, A, L), 1, stats)
 
-    # ---- (a) compiled functions, exhaustive small scope --------------------------------------
-    full = {2: 8, 3: 8, 4: 8} if thorough else {2: 8, 3: 8, 4: 6}
+    mark('walk')
+    # ---- (a) compiled functions on the small scope -------------------------------------------
+    # quick: all sequences while A**L <= 512 (dinucleotide: 200 us per example) resp. 4096 (shuffle),
+    # otherwise every stride-th sequence of the lexicographic list
     ns_shuffle = (1, 2, 3) if thorough else (1, 2)
     done = True
     for A in (2, 3, 4):
         for L in range(1, 9):
-            regs = _regions(L)
-            if L > full[A]:
-                regs = [(0, L)] + rng.sample([r for r in regs if r != (0, L)], 4)
-            regs = [(s, e, e) for (s, e) in regs] + [(0, L, None)] + ([(1, L, None)] if L > 3 else [])
+            N = A ** L
+            regs = [(s, e, e) for (s, e) in _regions(L)] + [(0, L, None)] + ([(1, L, None)] if L > 3 else [])
             for (s, e, end) in regs:
-                if rep.out_of_time():
+                if over(0.88):
                     done = False
                     break
+                whole = (e - s == L)
+                # shuffle
+                cap = None if (thorough or N <= 4096 or whole) else 4096
                 for n in ns_shuffle:
-                    for t in range(2 if thorough or n == 1 else 1):
+                    for t in range(2 if (n == 1 and N <= 4096) else 1):
                         seed = base_seed + 1000 * t + 17 * L + n
-                        case = {'kind': 'call', 'fn': 'shuffle', 'A': A, 'all_len': L, 'start': s, 'end': end, 'n': n, 'seed': seed,
-                                'dtype': 'int8', 'det': True}
-                        _do_call(rep, case, ('S', A, L, s, end, n, seed), 'shuffle-exhaustive-batch', stats)
-                for t in range(2 if thorough else 1):
-                    seed = base_seed + 5000 * t + 31 * L + s
-                    case = {'kind': 'call', 'fn': 'dinuc', 'A': A, 'all_len': L, 'start': s, 'end': end, 'n': 1, 'seed': seed,
-                            'dtype': 'int8', 'det': (A ** L <= 1024) or (e - s == L)}
-                    _do_call(rep, case, ('D', A, L, s, end, 1, seed), 'dinuc-exhaustive-batch', stats)
+                        case = _batch_case('shuffle', A, L, s, end, n, seed, True, cap)
+                        _do_call(rep, case, ('S', A, L, s, end, n, seed), 'shuffle-small-batch', stats)
+                # dinucleotide, n = 1 (one low-diversity member would abort a batch with n > 1)
+                if thorough:
+                    cap = None if (N <= 4096 or (whole and end is not None)) else (8192 if whole else 2048)
+                else:
+                    cap = None if N <= 512 else (1024 if whole else 128)
+                seed = base_seed + 31 * L + s
+                case = _batch_case('dinuc', A, L, s, end, 1, seed, (N <= 1024 if thorough else N <= 64) or whole, cap)
+                _do_call(rep, case, ('D', A, L, s, end, 1, seed), 'dinuc-small-batch', stats)
     if done:
-        rep.mark_exhaustive('compiled shuffle / dinucleotide_shuffle(n=1): every sequence of length <= %s (alphabet 2/3/4) x every region'
-                            % '/'.join(str(full[a]) for a in (2, 3, 4)))
+        rep.mark_exhaustive('compiled shuffle%s and dinucleotide_shuffle(n=1): every region of every length <= 8, alphabets 2-4; all sequences when A^L <= %d, '
+                            'else all sequences for the whole region and every k-th sequence (k = stride) for the other regions'
+                            % ('' if thorough else ' (A^L <= 4096)', 4096 if thorough else 1024))
     else:
-        rep.note('time budget reached inside the exhaustive compiled part')
+        rep.note('time budget reached inside the small-scope compiled part')
 
-    # dinucleotide n > 1: per-sequence calls (a batch would be aborted by one low-diversity member)
+    mark('small-batches')
+    # dinucleotide n > 1: per-sequence calls
     maxL = 6 if thorough else 5
     for A in (2, 3, 4):
         for L in range(3, maxL + 1):
+            allregs = [r for r in _regions(L) if r[1] - r[0] >= 3]
             for seq in _all_seqs(A, L):
-                if rep.out_of_time():
+                if over(0.95):
                     break
-                regs = [r for r in _regions(L) if r[1] - r[0] >= 3] if thorough else [(0, L)]
+                regs = [(0, L)] + (rng.sample(allregs[:-1] if allregs[-1] == (0, L) else [r for r in allregs if r != (0, L)], min(2, len(allregs) - 1)) if thorough and len(allregs) > 1 else [])
                 for (s, e) in regs:
                     for n in (2, 3):
                         seed = base_seed + 7 * n + s
@@ -573,8 +729,9 @@ def run(rep):
                                 'dtype': 'int8', 'det': True}
                         _do_call(rep, case, ('D1', A, seq, s, e, n, seed), 'dinuc-small-n>1', stats)
 
+    mark('dinuc n>1')
     # ---- (a) seeded random longer cases ------------------------------------------------------
-    n_rand = 4000 if thorough else 250
+    n_rand = 4000 if thorough else 300
     maxlen = 400 if thorough else 150
     for k in range(n_rand):
         if rep.out_of_time():
@@ -600,9 +757,11 @@ def run(rep):
             n = rng.choice([1, 1, 2, 3, 5]) if fn == 'shuffle' else rng.choice([1, 1, 2, 3, 5, 20])
             case = {'kind': 'call', 'fn': fn, 'A': A, 'seqs': seqs, 'start': s, 'end': end, 'n': n, 'seed': seed, 'dtype': dtype, 'det': True}
             _do_call(rep, case, ('R', fn, k), fn + '-random', stats, sample=case if k < 1 else None)
-    rep.note('statistics: ' + ', '.join('%s=%s' % kv for kv in sorted(stats.items())))
-    rep.note('calls that raised are allowed by the statement (it speaks about returned sequences); on the pinned tree '
-             'dinucleotide_shuffle raises for regions of length <= 2 and, for n > 1, when all shuffles coincide')
+    mark('random')
+    rep.note('elapsed after each part: ' + ', '.join(marks))
+    rep.note('statistics: ' + ', '.join('%s=%s' % kv for kv in sorted(stats.items()) if not kv[0].startswith('sampled')))
+    rep.note('calls that raise are allowed by the statement (it speaks about returned sequences); on the pinned tree '
+             'dinucleotide_shuffle raises for every region of length <= 2 and, for n > 1, when all shuffles coincide')
 
 
 def replay(case):
